@@ -7,7 +7,7 @@
    Executable definitions only; validated against `prqlc::prql_to_tokens` (harness `lex`) and against
    `prqlc::compile` by vplib/props/c08.py.  Strings are lists of code points. *)
 From Coq Require Import List NArith ZArith Bool.
-From PV Require Import Lib.ListX Model.Escape Model.SqlLex.
+From PV Require Import Lib.ListX Model.Escape Model.SqlLex Model.Interval.
 Import ListNotations.
 Local Open Scope N_scope.
 
@@ -318,7 +318,8 @@ Definition end_expr (s : str) : bool :=
 Inductive lit :=
 | LNull | LInt (n : N) | LFloat (mant : N) (e10 : Z) | LBool (b : bool)
 | LString (s : str) | LRaw (s : str) | LFString (content : str)
-| LDate (s : str) | LTime (s : str) | LTimestamp (s : str).
+| LDate (s : str) | LTime (s : str) | LTimestamp (s : str)
+| LInterval (n : N) (unit : str).    (* Literal::ValueAndUnit *)
 
 Definition lit_of_num (x : numlit) : lit := match x with NInt n => LInt n | NDec m e => LFloat m e end.
 
@@ -352,7 +353,37 @@ Definition kw (w : str) (s : str) : option str :=
   match strip_prefix w s with Some r => if end_expr r then Some r else None | None => None end.
 
 (* order of token(): interpolation (f"..."), date_token, then literal(): based numbers, string, raw string,
-   [value_and_unit: not modelled], number, boolean, null *)
+   value_and_unit (lex_literal_u below; lex_literal is the same without intervals), number, boolean, null *)
+(* value_and_unit: parse_integer, a unit name, end_expr (not consumed).  A count beyond i64::MAX does not fail:
+   number_str.parse::<i64>().unwrap_or(1) makes it 1 (finding C08-N1-interval-count-overflow) *)
+Definition lex_interval (units : list str) (s : str) : option (lit * str) :=
+  match parse_integer s with
+  | None => None
+  | Some (ip, r1) =>
+      match match_unit units r1 with
+      | Some (u, r2) => if end_expr r2 then
+                          let v := base_value 10 (no_us ip) in Some (LInterval (if v <=? I64_MAX then v else 1) u, r2)
+                        else None
+      | None => None
+      end
+  end.
+
+Definition lex_literal_u (units : list str) (tbl : list (N * N)) (rows : list (str * N * nat)) (s : str) : option (lit * str) :=
+  let fstr := match s with
+              | f :: r => if f =? 102 then option_map (fun p => (LFString (fst p), snd p)) (quoted_string tbl true r) else None
+              | [] => None end in
+  match fstr with Some x => Some x | None =>
+  match date_token s with Some x => Some x | None =>
+  match based_numbers rows s with Some (v, r) => Some (LInt v, r) | None =>
+  match quoted_string tbl true s with Some (v, r) => Some (LString v, r) | None =>
+  match raw_string s with Some (v, r) => Some (LRaw v, r) | None =>
+  match lex_interval units s with Some x => Some x | None =>
+  match lex_number s with Some (x, r) => Some (lit_of_num x, r) | None =>
+  match kw [116;114;117;101] s with Some r => Some (LBool true, r) | None =>
+  match kw [102;97;108;115;101] s with Some r => Some (LBool false, r) | None =>
+  match kw [110;117;108;108] s with Some r => Some (LNull, r) | None => None
+  end end end end end end end end end end.
+
 Definition lex_literal (tbl : list (N * N)) (rows : list (str * N * nat)) (s : str) : option (lit * str) :=
   let fstr := match s with
               | f :: r => if f =? 102 then option_map (fun p => (LFString (fst p), snd p)) (quoted_string tbl true r) else None
@@ -415,6 +446,7 @@ Definition emit_literal (sqlite bs : bool) (l : lit) : option str :=
   | LDate v => Some (emit_datetime sqlite s_DATE s_DATE v)
   | LTime v => Some (emit_datetime sqlite s_TIME s_TIME v)
   | LTimestamp v => Some (emit_datetime sqlite s_DATETIME s_TIMESTAMP v)
+  | LInterval _ _ => None                    (* needs the dialect's style and the field table: Model/Interval.v interval_text *)
   end.
 
 (* ------------------------------------------------------------------ translate_literal on the Rust-side Literal (hook verif:literal) *)
@@ -434,7 +466,7 @@ Definition emit_rlit (sqlite bs : bool) (l : rlit) : option str :=
   | RDate v => Some (emit_datetime sqlite s_DATE s_DATE v)
   | RTime v => Some (emit_datetime sqlite s_TIME s_TIME v)
   | RTimestamp v => Some (emit_datetime sqlite s_DATETIME s_TIMESTAMP v)
-  | RValueAndUnit => None                    (* intervals: per-dialect quoting styles, not modelled *)
+  | RValueAndUnit => None                    (* intervals: Model/Interval.v interval_text (needs the dialect's style) *)
   end.
 
 Definition rlit_of_lit (l : lit) : option rlit :=
@@ -442,6 +474,7 @@ Definition rlit_of_lit (l : lit) : option rlit :=
   | LNull => Some RNull | LInt n => Some (RInt (Z.of_N n)) | LFloat _ _ => Some RFloat | LBool b => Some (RBool b)
   | LString s | LRaw s => Some (RString s) | LFString _ => None
   | LDate v => Some (RDate v) | LTime v => Some (RTime v) | LTimestamp v => Some (RTimestamp v)
+  | LInterval _ _ => Some RValueAndUnit
   end.
 
 (* ------------------------------------------------------------------ dialects: who doubles backslashes, who reads them as escapes *)
@@ -474,7 +507,10 @@ Definition lit_view (l : lit) : N * str * (N * N) :=     (* tag, text payload, (
   | LNull => (0, [], (0, 0)) | LInt n => (1, [], (0, n)) | LFloat m e => (2, digits_of m, zview e)
   | LBool b => (3, [], (0, if b then 1 else 0)) | LString s => (4, s, (0, 0)) | LRaw s => (5, s, (0, 0))
   | LFString s => (6, s, (0, 0)) | LDate s => (7, s, (0, 0)) | LTime s => (8, s, (0, 0)) | LTimestamp s => (9, s, (0, 0))
+  | LInterval n u => (10, u, (0, n))
   end.
 Definition lex_literal_view tbl rows (s : str) : option (N * str * (N * N) * str) :=
   match lex_literal tbl rows s with Some (l, r) => Some (lit_view l, r) | None => None end.
+Definition lex_literal_u_view units tbl rows (s : str) : option (N * str * (N * N) * str) :=
+  match lex_literal_u units tbl rows s with Some (l, r) => Some (lit_view l, r) | None => None end.
 Definition piece_view (p : piece) : N * str := match p with PText s => (0, s) | PHole s => (1, s) end.
